@@ -55,6 +55,7 @@ type Term struct {
 	id      int
 	name    string
 	defGen  int // generation of the solver process this term was emitted to
+	hi      uint64 // structural upper bound of the unsigned value (bit-vectors only)
 }
 
 type tkey struct {
@@ -85,9 +86,82 @@ func mk(op Op, w uint8, c uint64, a, b, d *Term, name string) *Term {
 		return t
 	}
 	t := &Term{op: op, w: w, c: c, a: a, b: b, d: d, id: TT.next, name: name}
+	t.hi = upperBound(t)
 	TT.next++
 	TT.tab[k] = t
 	return t
+}
+
+// upperBound computes a sound structural upper bound of the unsigned value of t from the bounds of its operands.
+func upperBound(t *Term) uint64 {
+	if t.w == 0 {
+		return 1
+	}
+	m := mask(t.w)
+	switch t.op {
+	case OConst:
+		return t.c
+	case OZext:
+		return t.a.hi
+	case OIte:
+		return max(t.b.hi, t.d.hi)
+	case OBvAnd:
+		return min(t.a.hi, t.b.hi)
+	case OBvOr, OBvXor:
+		x := max(t.a.hi, t.b.hi)
+		return mask(uint8(bits.Len64(x)))
+	case OBvAdd:
+		s := t.a.hi + t.b.hi
+		if s >= t.a.hi && s <= m {
+			return s
+		}
+	case OBvMul:
+		h, l := bits.Mul64(t.a.hi, t.b.hi)
+		if h == 0 && l <= m {
+			return l
+		}
+	case OBvUdiv:
+		if t.b.IsConst() && t.b.c != 0 {
+			return t.a.hi / t.b.c
+		}
+		return max(t.a.hi, m)
+	case OBvUrem:
+		if t.b.IsConst() && t.b.c != 0 {
+			return min(t.a.hi, t.b.c-1)
+		}
+		return t.a.hi
+	case OBvLshr:
+		if t.b.IsConst() && t.b.c < 64 {
+			return t.a.hi >> t.b.c
+		}
+		return t.a.hi
+	case OBvShl:
+		if t.b.IsConst() && t.b.c < 64 {
+			if s := t.a.hi << t.b.c; s>>t.b.c == t.a.hi && s <= m {
+				return s
+			}
+		}
+	case OExtract:
+		lo := uint8(t.c)
+		if lo == 0 {
+			return min(t.a.hi, m)
+		}
+		return min(t.a.hi>>lo, m)
+	case OConcat:
+		if t.w <= 64 {
+			return t.a.hi<<t.b.w | t.b.hi
+		}
+	}
+	return m
+}
+
+// needBits is the number of bits that hold every value up to hi.
+func needBits(hi uint64) uint8 {
+	n := uint8(bits.Len64(hi))
+	if n == 0 {
+		n = 1
+	}
+	return n
 }
 
 func mask(w uint8) uint64 {
@@ -236,6 +310,19 @@ func cmp(op Op, a, b *Term) *Term {
 	}
 	if a == b {
 		return Bool(op == OUle || op == OSle)
+	}
+	// both operands provably small: compare in a narrow width (signed compares of non-negative values are unsigned)
+	if a.w >= 16 && a.w <= 64 {
+		k := needBits(max(a.hi, b.hi))
+		if k <= a.w/2 && a.op != OZext && b.op != OZext {
+			uop := op
+			if op == OSlt {
+				uop = OUlt
+			} else if op == OSle {
+				uop = OUle
+			}
+			return cmp(uop, Extract(a, k-1, 0), Extract(b, k-1, 0))
+		}
 	}
 	// unsigned compare of zext(x) against const: narrow
 	if (op == OUlt || op == OUle) && a.op == OZext && b.IsConst() {
@@ -430,6 +517,34 @@ func Bin(op Op, a, b *Term) *Term {
 			return a
 		case OBvXor, OBvSub:
 			return Const(w, 0)
+		}
+	}
+	// width narrowing: when the structural bounds of the operands show that the operation cannot leave k <= w/2 bits,
+	// it is built in k bits and zero-extended (a 64-bit divider or multiplier becomes a 7-bit one)
+	if w >= 16 {
+		switch op {
+		case OBvAdd, OBvMul, OBvUdiv, OBvUrem:
+			var rhi uint64
+			ok := false
+			switch op {
+			case OBvAdd:
+				rhi = a.hi + b.hi
+				ok = rhi >= a.hi
+			case OBvMul:
+				h, l := bits.Mul64(a.hi, b.hi)
+				rhi, ok = l, h == 0
+			case OBvUdiv, OBvUrem:
+				rhi, ok = max(a.hi, b.hi), !(b.IsConst() && b.c == 0)
+				if !b.IsConst() {
+					ok = false // division by zero yields all-ones of the full width
+				}
+			}
+			if ok {
+				k := needBits(max(rhi, max(a.hi, b.hi)))
+				if k <= w/2 {
+					return Zext(w, mk(op, k, 0, Extract(a, k-1, 0), Extract(b, k-1, 0), nil, ""))
+				}
+			}
 		}
 	}
 	// or of disjoint byte-structured values: try to merge concats (zext(x) | concat(y,0...))
@@ -696,6 +811,50 @@ func emitDefs(t *Term, sb *strings.Builder) {
 		}
 		sb.WriteString(")\n")
 	}
+}
+
+// evalOp computes t's value from the values of its operands.
+func evalOp(t *Term, x, y, z uint64) uint64 {
+	switch t.op {
+	case ONot:
+		return 1 - x
+	case OAnd:
+		return x & y
+	case OOr:
+		return x | y
+	case OEq:
+		return b2u(x == y)
+	case OUlt:
+		return b2u(x < y)
+	case OUle:
+		return b2u(x <= y)
+	case OSlt:
+		return b2u(sx(t.a.w, x) < sx(t.a.w, y))
+	case OSle:
+		return b2u(sx(t.a.w, x) <= sx(t.a.w, y))
+	case OIte:
+		if x != 0 {
+			return y
+		}
+		return z
+	case OBvNot:
+		return ^x & mask(t.w)
+	case OBvNeg:
+		return -x & mask(t.w)
+	case OConcat:
+		return x<<t.b.w | y
+	case OExtract:
+		return (x >> (t.c & 0xff)) & mask(t.w)
+	case OZext:
+		return x
+	case OSext:
+		return uint64(sx(t.a.w, x)) & mask(t.w)
+	}
+	r, ok := constFold(t.op, t.w, x, y)
+	if !ok {
+		r = 0
+	}
+	return r & mask(t.w)
 }
 
 // Eval evaluates t under a model (var name -> value); missing vars are 0.
